@@ -920,3 +920,90 @@ def flag_prefix_tests(ctx, rule='TBL', module_suffixes=None):
                                      f"for present (or handled) when only {others[0]!r} is",
                           key=f"{rule}|{fi.qualname}|prefix|{cst}", where=loc(fi, c))
     return n
+
+
+_SHRINKERS = ('strip', 'lstrip', 'rstrip', 'replace', 'removeprefix', 'removesuffix', 'translate')
+
+
+def test_then_shrink(ctx, funcs, rule='DEFUSE'):
+    """`if v in ('', None): v = <placeholder>  else: v = f(v.strip())` decides
+    emptiness BEFORE the value is stripped: a whitespace-only value is not
+    mapped to the placeholder and becomes empty afterwards (and is then padded
+    / formatted into something that looks valid)."""
+    n = 0
+    for fi in funcs:
+        for node in walk_local(fi.node):
+            if not isinstance(node, ast.If):
+                continue
+            for _e, txt, pol in literals([(node.test, True)]):
+                v = None
+                for pat in ("{v} in ('', None)", "{v} in (None, '')", "{v} in ['', None]", "{v} in [None, '']", "{v} == ''", "{v}"):
+                    pass
+                e = _e
+                if isinstance(e, ast.Compare) and len(e.ops) == 1 and isinstance(e.left, ast.Name):
+                    comp = e.comparators[0]
+                    vals = None
+                    if isinstance(e.ops[0], ast.In) and isinstance(comp, (ast.Tuple, ast.List, ast.Set)):
+                        vals = [c.value for c in comp.elts if isinstance(c, ast.Constant)]
+                    elif isinstance(e.ops[0], ast.Eq) and isinstance(comp, ast.Constant):
+                        vals = [comp.value]
+                    if vals is not None and '' in vals:
+                        v = e.left.id
+                elif isinstance(e, ast.Name):
+                    v, pol = e.id, not pol        # `if v:` is the non-empty test
+                if v is None:
+                    continue
+                empty_branch, full_branch = (node.body, node.orelse) if pol else (node.orelse, node.body)
+                maps_empty = any(isinstance(s, ast.Assign) and norm(s.targets[0]) == v for s in empty_branch)
+                for s in full_branch:
+                    if isinstance(s, ast.Assign) and norm(s.targets[0]) == v:
+                        shr = [c for c in ast.walk(s.value) if isinstance(c, ast.Call) and isinstance(c.func, ast.Attribute)
+                               and c.func.attr in _SHRINKERS
+                               and any(isinstance(x, ast.Name) and x.id == v for x in ast.walk(c.func.value))]
+                        if not shr:
+                            continue
+                        n += 1
+                        ctx.tri(False, maps_empty, rule,
+                                f"{fi.qualname}: `{v}` is tested for emptiness on the value that is used",
+                                detail_bad=f"`if {norm(node.test)}` maps an empty `{v}` to `{norm(empty_branch[0])[:40]}`, but the other "
+                                           f"branch shrinks it afterwards (`{norm(s)[:60]}`): a whitespace-only value passes the "
+                                           f"test, becomes '' and is then formatted as if it were a value",
+                                key=f"{rule}|{fi.qualname}|test-then-shrink|{v}", where=loc(fi, s),
+                                why=f"`{norm(s)[:50]}` after an emptiness test on `{v}`; the empty case is not mapped to a placeholder here")
+    return n
+
+
+def no_dedup_on_insert(ctx, funcs, rule='SINK', exempt=('duplicates', 'unique', 'dedup')):
+    """Containers keep every element they are given, equal or not (only the
+    duplicate filters may drop): an append / add that runs only when the
+    element (or its id) is `not in` a collection the same function fills is a
+    silent de-duplication."""
+    from ..srcmodel import facts_at
+    n = 0
+    for fi in funcs:
+        if any(w in fi.qualname.lower() for w in exempt) or any(w in p_.lower() for p_ in fi.params() for w in exempt):
+            continue            # removing duplicates is what the function (or its option) is for
+        filled = set()
+        for c in walk_local(fi.node):
+            if isinstance(c, ast.Call) and isinstance(c.func, ast.Attribute) and c.func.attr in ('append', 'add', 'extend') \
+                    and isinstance(c.func.value, ast.Name):
+                filled.add(c.func.value.id)
+        for c in walk_local(fi.node):
+            if not (isinstance(c, ast.Call) and isinstance(c.func, ast.Attribute) and c.func.attr in ('append', 'extend')
+                    and c.args):
+                continue
+            elem = c.args[0]
+            names = {x.id for x in ast.walk(elem) if isinstance(x, ast.Name)}
+            n += 1
+            for e, txt, pol in facts_at(c):
+                if pol or not (isinstance(e, ast.Compare) and isinstance(e.ops[0], ast.In)):
+                    continue
+                coll = e.comparators[0]
+                left_names = {x.id for x in ast.walk(e.left) if isinstance(x, ast.Name)}
+                if isinstance(coll, ast.Name) and coll.id in filled and left_names & names:
+                    ctx.violation(rule, f"{fi.qualname}: every element is kept (`{norm(c)[:50]}`)",
+                                  f"`{norm(c)[:50]}` runs only if `{txt}` is false and `{coll.id}` is filled by this very "
+                                  f"function: an element that is equal to (or the same object as) an earlier one is "
+                                  f"dropped without notice, so the result no longer holds what went in",
+                                  key=f"{rule}|{fi.qualname}|dedup|{coll.id}", where=loc(fi, c))
+    return n
